@@ -87,6 +87,18 @@ func (e *Engine) contractFor(fn *ssa.Function) *Contract {
 		for k, v := range own.Opts {
 			m.Opts[k] = v
 		}
+		if all := ic.Loops[-1]; all != nil {
+			m.Loops = map[int]*LoopSpec{}
+			for k, v := range own.Loops {
+				m.Loops[k] = v
+			}
+			merged := *all
+			if o := own.Loops[-1]; o != nil {
+				merged.Invs = append(append([]Clause{}, all.Invs...), o.Invs...)
+				merged.Decs = append(append([]Clause{}, all.Decs...), o.Decs...)
+			}
+			m.Loops[-1] = &merged
+		}
 		if !m.HasMod && ic.HasMod {
 			m.HasMod, m.Modifies, m.Writes = true, ic.Modifies, ic.Writes
 			m.Fresh = m.Fresh || ic.Fresh
@@ -98,6 +110,9 @@ func (e *Engine) contractFor(fn *ssa.Function) *Contract {
 		m := *ic
 		m.Kind = "func"
 		m.Loops = map[int]*LoopSpec{}
+		if all := ic.Loops[-1]; all != nil {
+			m.Loops[-1] = all
+		}
 		res = &m
 	}
 	e.conCache[fn] = res
